@@ -169,6 +169,8 @@ static void run_ctx(const C *b, unsigned off, const char *pre, const char *post)
     bool ref = liberal_valid(e, n);
     vf_assert(ref || v.IsUndefined(), 77);       // structurally invalid text must be rejected
     vf_assert(strict_valid(e, n) != 1 || !v.IsUndefined(), 78);   // a strictly RFC 8259-valid text must be accepted
+    { unsigned p = 0; lskip(e, n, p);                                // a strictly valid CONTAINER document followed by a non-whitespace unit must be rejected
+      if (p < n && (e[p] == C('[') || e[p] == C('{')) && sval(e, n, p, 0) == 1) { lskip(e, n, p); vf_assert(p == n || v.IsUndefined(), 79); } }
     vf_free(e);
 }
 static void run_all(const C *b, unsigned off, const char *open) {
